@@ -41,10 +41,10 @@ Exact(d) == Len(d) >= 1 /\ EndFrom(d, 2) = Len(d) + 1
 Tail3(d) == LET p == EndFrom(d, 2) IN
             CASE Len(d) = 0 -> "empty"
               [] p = Len(d) + 1 -> "exact"
-              [] p + 1 = Len(d) + 1 -> "half-identifier"
-              [] p + 2 = Len(d) + 1 -> "identifier-without-length"
-              [] p + 3 = Len(d) + 1 -> "length-without-contents"
-              [] OTHER -> "contents-cut"
+              [] p + 1 = Len(d) + 1 -> "halfId"
+              [] p + 2 = Len(d) + 1 -> "idNoLen"
+              [] p + 3 = Len(d) + 1 -> "lenNoCont"
+              [] OTHER -> "contCut"
 
 Strip(u) == [id |-> u.id, len |-> u.len, contents |-> u.contents]
 StripAll(us) == [k \in 1..Len(us) |-> Strip(us[k])]
